@@ -159,6 +159,23 @@ Theorem consensus_spans_namespace : forall (all : Z) (bits : list Z) (rooted : b
 Proof. exact consensus_spans_namespace_l. Qed.
 Print Assumptions consensus_spans_namespace.
 
+(* PARTIAL.  Full statement (not proved): the internal clades of the tree built by the coded
+   insertion are exactly `all` and the clades accepted at the set level,
+     forall c, In c (ct_clades (fsb_tree all bits rooted ss)) <->
+               c = all \/ In c (greedy all [] (fsb_prepare all rooted ss)).
+   Proved: the tree-level insertion never invents a clade (every internal clade is the star's
+   root or one of the prepared candidates) and keeps the leaves (consensus_spans_namespace).
+   Missing: the laminar-family invariant showing that "the children of the smallest enclosing
+   node that meet the split add up to it" coincides with "compatible with every clade accepted
+   so far".  The equality of the two levels is evaluated on every correspondence case (model
+   `step` returns an error output when they differ). *)
+Theorem consensus_tree_clades_partial :
+  forall (all : Z) (bits : list Z) (rooted : bool) (ss : list Z) (c : Z),
+  In c (ct_clades (fsb_tree all bits rooted ss)) ->
+  In c (ct_clades (ct_star all bits)) \/ In c (fsb_prepare all rooted ss).
+Proof. exact consensus_tree_clades_sound_l. Qed.
+Print Assumptions consensus_tree_clades_partial.
+
 (* all counted trees rooted -> rooted; none rooted -> unrooted *)
 Theorem consensus_rooting : forall (c : config) (ts : list tree_in) (b : bool),
   ts <> [] -> (forall t, In t ts -> is_rooted_truthy (t_rooting t) = b) ->
@@ -169,14 +186,24 @@ Print Assumptions consensus_rooting.
 (* ------------------------------------------------------------------ support and summaries *)
 
 (* every node of the target tree, in preorder: support = exact frequency of its split (x100
-   for percentages) *)
+   for percentages); the edge-length / node-age fields decorated are those of the summary
+   table entry of that split (no-data values 0, 0, 0, [] when the split has none; not set at
+   all when the table is empty) *)
 Theorem support_is_freq :
   forall (c : config) (ts : list tree_in) (o : sopts) (t : stree) (d' : sd) (outs : list node_out),
   (forall t, In t ts -> NoDup (splits_of t)) ->
   summarize_tree (count_trees c sd_empty ts) o t = (d', Ok outs) ->
   Forall2 (fun node out =>
              n_split out = sn_split node /\
-             (n_support out == (if o_percent o then 100 else 1) * exact_freq c ts (sn_split node))%Q)
+             (n_support out == (if o_percent o then 100 else 1) * exact_freq c ts (sn_split node))%Q /\
+             n_lenf out = (match calc_summaries (elens (count_trees c sd_empty ts)) with
+                           | [] => None
+                           | _ => Some (fields_of (calc_summaries (elens (count_trees c sd_empty ts))) (sn_split node))
+                           end) /\
+             n_agef out = (match calc_summaries (nages (count_trees c sd_empty ts)) with
+                           | [] => None
+                           | _ => Some (fields_of (calc_summaries (nages (count_trees c sd_empty ts))) (sn_split node))
+                           end))
           (st_preorder t) outs.
 Proof. exact support_is_freq_l. Qed.
 Print Assumptions support_is_freq.
